@@ -117,11 +117,17 @@ def isWs (c : Nat) : Bool :=
   (9 ≤ c && c ≤ 13) || c = 32 || c = 0x85 || c = 0xA0 || c = 0x1680 || (0x2000 ≤ c && c ≤ 0x200A) ||
   c = 0x2028 || c = 0x2029 || c = 0x202F || c = 0x205F || c = 0x3000
 
+def trimAll : List Nat → List Nat
+  | [] => []
+  | c :: cs => if isWs c then trimAll cs else c :: cs
+
+/-- leading blanks are dropped but line breaks are kept (line numbers of messages) -/
 def trimStart : List Nat → List Nat
   | [] => []
-  | c :: cs => if isWs c then trimStart cs else c :: cs
+  | c :: cs => if isWs c && c != 10 && c != 13 then trimStart cs else c :: cs
 
-def trim (cs : List Nat) : List Nat := (trimStart (trimStart cs).reverse).reverse
+/-- `res.trim_end().trim_start_matches(whitespace except \n, \r)` -/
+def trim (cs : List Nat) : List Nat := trimStart (trimAll cs.reverse).reverse
 
 /-- `init_items` from the vocabulary rows in source order -/
 def initItems (rows : List (List Nat × List Nat)) : List Item :=
